@@ -4,5 +4,9 @@ import contracts.C03 as _c03  # noqa: F401
 
 LEVEL = "proof"
 ASSUMPTIONS = _c03.ASSUMPTIONS + [
-    "A-QR + L-WM (assumed, not proved here): the single coefficient m returned by the external LP solver for an intercept-only design at tau = 1/2 IS the baseline-weighted median of the residuals; the contracts prove that the solver is asked exactly that question (rows, response, weights, tau) and that every prediction uses the one returned m",
+    "A-QR (assumed): the external LP solver (installed elexsolver, scipy HiGHS on the dual) returns a MINIMISER of the weighted pinball loss it is given; the contracts prove that the solver is asked exactly the intercept-only question at tau = 1/2 (rows, response, weights, no regularisation) and that every prediction uses the one returned m",
+    "L-WM is no longer assumed: a minimiser of  sum w_i |y_i - m|  has at most half of the weight strictly below it and at most half strictly above it -- theorem wmedian_of_minimiser in lean/FrameSums.lean (the tau = 1/2 pinball loss is half the absolute loss); the bounded companion c05_solver.py tests A-QR + L-WM together on the real solver",
 ]
+# the assumptions A-QR + L-WM concern the external LP solver: tested (never counted as proved) on random instances through
+# the real fit_model and the installed elexsolver, and end to end through the real get_unit_predictions
+BOUNDED = [{"name": "solver_returns_a_weighted_median", "script": "c05_solver.py", "timeout": 2400}]
